@@ -5,6 +5,11 @@ import json, subprocess
 HOOK_COMMITS = ["e830588", "a6f2056", "d667224"]
 
 CHECKS = {
+ "C10": dict(
+  technique="runtime differential with event log: worker pools vs sequential analyzers on the same traces, logical drain detection through hook events, seeded schedule perturbation at hook points",
+  text="Exploration: 400 (quick) / 6000 (thorough) seeded traces of 10..200 connections x the TCP, HTTP and TLS pools x 3..6 configurations (workers 1..16, batch 1/2/32, timeout 1/10 ms, perturbation rates) plus lock-step runs with a moving virtual clock and the parallel analyze_pcap entry; result multisets and per-connection/per-sender orders must equal the sequential run. Evidence counts the distinct result-arrival orders observed (schedule diversity). Held = no run differed; undrained or overflowing runs are inconclusive.",
+  note="Needs hooks H1, H2, H3. Only schedules that real threads plus perturbation produce are explored.",
+  design="6 C10"),
  "C09": dict(
   technique="runtime differential + history monitor: deliveries of one connection under varied partition / ISN / arrival order vs the in-order baseline, with a coverage invariant evaluated at every report",
   text="Exploration: 3.2k (quick) / 100k (thorough) seeded HTTP/1.x and HTTP/2 exchanges, each delivered under every (strided in quick) 2-cut, every initial sequence number within one stream length of 2^32, all permutations of up to 5 client segments and random two-direction partitions/orders (~7.7e5 deliveries quick). Each delivery must report exactly the baseline request and response, once, in the right direction, and never before the delivered segments cover the head contiguously. Held = no delivery differed.",
